@@ -10,7 +10,7 @@
 From Coq Require Import List ZArith Bool.
 From Coq Require Import Reals.
 From RV Require Import Gen.Schemes C01.FreeAlg C01.Model C01.ProofsSaba C01.ProofsEos C01.ProofsJanus
-  C01.ProofsWhfast C01.ProofsWhfast17 C01.FreeAlgX C01.ModelX C01.FreeAlg3 C01.Tables C01.ProofsX C01.ProofsX17 C01.ProofsTables C01.JerkDeriv Common.Num Common.RealNum C01.Jerk C01.JerkProofs.
+  C01.ProofsWhfast C01.ProofsWhfast17 C01.FreeAlgX C01.ModelX C01.FreeAlg3 C01.Tables C01.ProofsX C01.ProofsX17 C01.ProofsTables C01.JerkDeriv C01.OdeLoop C01.OdeLoopProofs Common.Num Common.RealNum C01.Jerk C01.JerkProofs.
 Import ListNotations.
 Open Scope Z_scope.
 
@@ -183,6 +183,21 @@ Print Assumptions C01_bs_extrapolation.
 Theorem C01_jerk_is_directional_derivative : jerk_directional_derivative_statement.   (* spelled out in C01/JerkDeriv.v *)
 Proof. exact jerk_is_directional_derivative_x. Qed.
 Print Assumptions C01_jerk_is_directional_derivative.
+
+(* User-defined ODEs advanced together with the N-body system (non-BS integrators): the sub-step loop of reb_integrator_part2,
+   over an abstract BS sub-stepper (any sequence of answers (success, new dt_proposed <> 0)), in exact arithmetic:
+   on normal exit the ODE time has not passed r->t and the loop condition is false there, i.e. t_end = r->t or
+   |r->t - t_end| <= 1e-15 (|r->t| + 1e-16); every requested sub-step points forward and is at most the remaining time
+   (so the accepted sub-steps sum to the N-body step), in both directions of time. *)
+Theorem C01_ode_substeps_end_at_nbody_time : forall oracle (rt dtl prop0 : R) tr tend,
+  Forall (fun o : bool * R => snd o <> 0%R) oracle ->
+  ode_run RNum oracle rt dtl prop0 = (tr, tend, true) ->
+  let fwd := if Rlt_dec 0 dtl then 1%R else (-1)%R in
+  (fwd * tend <= fwd * rt)%R /\
+  (tend = rt \/ (Rabs ((rt - tend) / (Rabs rt + ndec RNum 1 (10 ^ 16))) <= ndec RNum 1 (10 ^ 15))%R) /\
+  Forall (good_call rt fwd) tr.
+Proof. exact ode_run_ends_at_nbody_time. Qed.
+Print Assumptions C01_ode_substeps_end_at_nbody_time.
 
 (* Non-vacuity: the decision procedure rejects wrong claims (leapfrog of order 4; SABA2 of grading (6,2)),
    and the lists quantified over are the concrete non-empty lists of types. *)
